@@ -55,7 +55,7 @@ def gen_case(rng: SimRng, tier: str) -> dict:  # noqa: ARG001
     ops = []
     for _ in range(r.randint(1, 3)):
         x = r.random()
-        if x < 0.7:
+        if x < 0.6:
             op = {
                 "op": "sim_ss",
                 "y0": None if r.random() < 0.5 else {n: r.choice([0.25, 1.0, 2.0, 6.0]) for n in variables},
@@ -68,6 +68,25 @@ def gen_case(rng: SimRng, tier: str) -> dict:  # noqa: ARG001
             if r.random() < 0.3:
                 op["pre_simulate"] = r.choice([0.5, 2.0, 10.0])  # a successful segment precedes the search
             ops.append(op)
+        elif x < 0.85 and fam in STABLE:
+            # several searches on one simulator
+            steps = [{"do": "ss", "tolerance": r.choice([1e-6, 1e-8]), "rel_norm": r.random() < 0.25}]
+            pn = models.FAMILIES[fam][1]
+            for _ in range(r.randint(2, 5)):
+                y = r.random()
+                if y < 0.4:
+                    n = r.choice(pn)
+                    steps.append({"do": "set", "items": [[n, spec["params"][n] * r.choice([0.25, 0.5, 2.0, 4.0])]]})
+                    steps.append({"do": "ss", "tolerance": 1e-6, "rel_norm": False})
+                elif y < 0.6:
+                    steps.append({"do": "read"})
+                elif y < 0.75:
+                    steps.append({"do": "simulate", "dt": r.choice([1.0, 10.0, 50.0])})
+                elif y < 0.82:
+                    steps.append({"do": "clear"})
+                else:
+                    steps.append({"do": "ss", "tolerance": 1e-6, "rel_norm": r.random() < 0.25})
+            ops.append({"op": "ss_history", "steps": steps})
         elif fam == "F1":
             vals = [r.choice([0.5, 1.0, 2.0, 0.1]) for _ in range(r.randint(1, 4))]
             if r.random() < 0.7:
@@ -104,6 +123,8 @@ class Exec:
         self.i = i
         if op["op"] == "sim_ss":
             self.sim_ss(op)
+        elif op["op"] == "ss_history":
+            self.ss_history(op)
         elif op["op"] == "scan_ss":
             self.scan_ss(op)
         else:
@@ -182,6 +203,85 @@ class Exec:
         bad = [n for n, w in want.items() if abs(float(fl[n]) - w) > 1e-9 * (1 + abs(w))]
         if bad or not np.all(np.abs(resid) <= 1e-3 * vmax):
             self._viol("fluxes_do_not_balance", ["fluxes_do_not_balance", f"family:{fam}"], f"reported fluxes {fl.to_dict()} at the reported state: residual {resid.tolist()}")
+
+    def ss_history(self, op: dict) -> None:  # noqa: C901, PLR0912
+        """Several steady-state searches on ONE simulator, with parameter changes, result reads
+        and ordinary simulations in between: every reported success must be the steady state of
+        the parameters in force at that moment; a search that cannot succeed must be a failure."""
+        from mxlpy import Simulator
+        from mxlpy.integrators import Scipy
+
+        spec = self.spec
+        fam = spec["family"]
+        names = models.FAMILIES[fam][0]
+        model = models.build_model(spec)
+        p = dict(spec["params"])
+        sim = Simulator(model, integrator=Scipy)
+        dead = False
+        self.shape.add(("ss_history", len(op["steps"])))
+        for j, st in enumerate(op["steps"]):
+            k = st["do"]
+            try:
+                if k == "set":
+                    sim.update_parameters({a: float(b) for a, b in st["items"]})
+                    p.update({a: float(b) for a, b in st["items"]})
+                    self.trace.add("hist", "set", st["items"])
+                    continue
+                if k == "simulate":
+                    if not dead:
+                        cur = sim.variables[-1].index[-1] if sim.variables else 0.0
+                        sim.simulate(float(cur) + float(st["dt"]))
+                    self.trace.add("hist", "simulate", st["dt"])
+                    continue
+                if k == "read":
+                    res = sim.get_result()
+                    if not isinstance(res.value, Exception):
+                        _ = res.value.variables
+                        _ = res.value.fluxes
+                    self.counters["history_result_reads"] += 1
+                    self.trace.add("hist", "read")
+                    continue
+                if k == "clear":
+                    sim.clear_results()
+                    dead = False
+                    self.trace.add("hist", "clear")
+                    continue
+                # k == "ss"
+                sim.simulate_to_steady_state(tolerance=st.get("tolerance", 1e-6), rel_norm=bool(st.get("rel_norm")))
+                res = sim.get_result()
+            except Exception as e:  # noqa: BLE001
+                self.trace.add("hist", k, "exc", type(e).__name__)
+                dead = True
+                continue
+            self.counters["history_searches"] += 1
+            xs = models.steady_state(fam, p)
+            if isinstance(res.value, Exception):
+                dead = True
+                self.trace.add("hist", "ss", "failure", type(res.value).__name__)
+                self.counters[f"outcome:failure:{'stable' if xs is not None else 'no_steady_state'}"] += 1
+                continue
+            if dead:
+                continue
+            simres = res.value
+            raw = simres.get_variables(include_derived_variables=False, include_readouts=False, include_surrogate_variables=False)
+            x_raw = raw.loc[:, names].iloc[-1].to_numpy(dtype=float)
+            x_view = simres.variables.loc[:, names].iloc[-1].to_numpy(dtype=float)
+            self.trace.add("hist", "ss", "success", [fnum(v) for v in x_raw])
+            which = f"search:{'first' if self.counters['history_searches'] == 1 else 'later'}"
+            if xs is None:
+                self._viol("failure_reported_as_state", ["failure_reported_as_state", f"family:{fam}", "history", which], f"after {op['steps'][:j]} the network has no steady state but {x_raw.tolist()} is presented as steady")
+                return
+            bound = self._bound(xs, st.get("tolerance", 1e-6), bool(st.get("rel_norm")))
+            for label, x in (("raw", x_raw), ("view", x_view)):
+                if not np.all(np.abs(x - xs) <= bound):
+                    self._viol("steady_not_steady", ["steady_not_steady", f"family:{fam}", "history", which, label], f"search {j} on a re-used simulator (history {op['steps'][: j + 1]}) reports {x.tolist()} ({label}), the steady state under the parameters in force {p} is {xs.tolist()}")
+                    return
+            fl = copy.deepcopy(simres).fluxes.iloc[-1]
+            want = models.rates(fam, p, x_raw, 0.0)
+            bad = [n for n, w in want.items() if abs(float(fl[n]) - w) > 1e-6 * (1 + abs(w))]
+            if bad:
+                self._viol("fluxes_do_not_balance", ["fluxes_do_not_balance", f"family:{fam}", "history"], f"reported fluxes {fl.to_dict()} are not the rate laws at the reported state {x_raw.tolist()} under {p}")
+                return
 
     def scan_ss(self, op: dict) -> None:
         import pandas as pd
@@ -289,6 +389,11 @@ class SteadyMachine(Machine):
                 new = copy.deepcopy(case)
                 new["ops"][i]["rel_norm"] = False
                 yield new
+            if op["op"] == "ss_history" and len(op["steps"]) > 1:
+                for j in range(len(op["steps"])):
+                    new = copy.deepcopy(case)
+                    new["ops"][i]["steps"] = op["steps"][:j] + op["steps"][j + 1 :]
+                    yield new
             if op["op"] == "scan_ss" and len(op["values"]) > 1:
                 for j in range(len(op["values"])):
                     new = copy.deepcopy(case)
